@@ -203,7 +203,7 @@ package getoptions
 //@   ensures parse.tree.kept: TreeOK()
 //@   ensures parse.unk.kept: UnkOK()
 //@   ensures parse.nocomp {C17}: completionMode == "" ==> len(result1) == 0
-//@   loop ARGS_LOOP
+//@   loop ARGS_LOOP | "for iterator.Next() ||..."
 //@     modifies iterator.idx, programTree.ChildText, programTree.UnknownOptions, option.Option.Called, option.Option.UsedAlias, option.Option.MapKeysToLower,
 //@       cell(bool), cell(string), cell(int), cell(float64), cell([]string), cell([]int), cell([]float64), allmaps(map[string]string)
 //@     invariant it.ok: iterator != nil && iterator.data == &args && 0 - 1 <= iterator.idx && iterator.idx <= len(args)
@@ -324,7 +324,7 @@ package getoptions
 //@     step min.missing {C01,C02}: $entered && old_iter(iterator.idx) + 1 >= len(args) ==> $returned && erris(result2, ErrorParsing)
 //@     step min.dash {C01,C02}: $entered && old_iter(iterator.idx) + 1 < len(args) && LooksLikeOption(args[old_iter(iterator.idx) + 1]) ==> $returned && erris(result2, ErrorParsing)
 //@     step min.done: !$entered ==> iterator.idx == old_iter(iterator.idx) && old_iter(i) >= cOpt.MinArgs
-//@   loop MAX_LOOP
+//@   loop MAX_LOOP | "for ; i < cOpt.MaxArgs; i++"
 //@     modifies iterator.idx, *cOpt.pBool, *cOpt.pString, *cOpt.pInt, *cOpt.pFloat64, *cOpt.pStringS, *cOpt.pIntS, *cOpt.pFloat64S, mapof(MapOf(cOpt))
 //@     invariant max.idx: 0 <= iterator.idx && iterator.idx < len(args) && old_loop(iterator.idx) <= iterator.idx
 //@     invariant max.opt: OptOK(cOpt) && 0 <= i
